@@ -6,6 +6,6 @@ Check (C05_expr_no_panic : forall ws is_num s,
   shape_of ws is_num s <> RPanic /\ shape_of ws is_num s <> ROutOfFuel).
 Check (C05_expr_depth_le_length : forall ws (is_num : str -> bool) fuel s, (depth ws fuel s <= S (length s))%nat).
 Check (C05_operator_slices_valid : forall (ws : Z -> bool) (is_num : str -> bool) ops e pos,
-  ascii_ops ops -> find_op ops e 0 0 None = Some pos ->
+  ascii_ops ops -> find_operator ws ops e = Some pos ->
   exists l c r, slice e 0 pos = Some l /\ slice e pos (pos + 1) = Some [c] /\ slice e (pos + 1) (blen e) = Some r
                 /\ (length l < length e)%nat /\ (length r < length e)%nat).
